@@ -373,10 +373,45 @@ fn run_http(ctx: &mut Ctx, content: Arc<Vec<u8>>, ranges: Vec<(u64, usize)>, sin
     // does not know about becomes one more failure; timeouts are injected as Stall faults
     let d = net::draw_delay();
     srv.max_delay_ns = if timeout_s.is_some() { d.min(1_000_000) } else { d };
-    srv.script = script.clone();
+    // a quarter of the chunk-stream readers have been used before: an earlier stream over a run of
+    // adjacent ranges was polled for some of its items and dropped -- in the middle of a response,
+    // with bytes of the following ranges already received. Nothing of it may show in the next
+    // stream (the server behaves during that prelude; the failure script starts after it)
+    let prelude: Option<(Vec<(u64, usize)>, usize)> = if !single && content.len() >= 8 && gen::chance(1, 4) {
+        let n = 2 + gen::draw(3) as usize;
+        let max_each = (content.len() / n).min(3000).max(1);
+        let mut at = gen::draw((content.len() - n * max_each + 1) as u32) as u64;
+        // (a third of them end exactly where the judged list begins)
+        let mut list = Vec::new();
+        for _ in 0..n {
+            let sz = 1 + gen::draw(max_each as u32) as usize;
+            list.push((at, sz));
+            at += sz as u64;
+        }
+        if gen::chance(1, 3) {
+            let end = ranges[0].0;
+            let total: u64 = list.iter().map(|r| r.1 as u64).sum();
+            if end >= total {
+                let mut a = end - total;
+                for r in list.iter_mut() {
+                    r.0 = a;
+                    a += r.1 as u64;
+                }
+            }
+        }
+        let take = 1 + gen::draw(n as u32 - 1) as usize;
+        simkit::count("probe:http-reader-used-before-stream-dropped-mid-run");
+        Some((list, take))
+    } else {
+        None
+    };
+    if prelude.is_none() {
+        srv.script = script.clone();
+    }
     let server = net::install(srv);
     let desc = json!({
         "reader": "http", "content_len": content.len(), "ranges": ranges, "single_read_at": single, "retries": retries, "retry_delay_s": delay_s, "timeout_s": timeout_s,
+        "earlier_stream_dropped": prelude.as_ref().map(|(l, t)| json!({"ranges": l, "items_taken": t})),
         "fault_script": script.iter().map(|f| format!("{:?}", f)).collect::<Vec<_>>(),
     });
     if ctx.want_sample {
@@ -389,6 +424,9 @@ fn run_http(ctx: &mut Ctx, content: Arc<Vec<u8>>, ranges: Vec<(u64, usize)>, sin
     // the first error was returned)
     let after: Arc<std::sync::Mutex<(Vec<Item>, usize, u64)>> = Arc::new(std::sync::Mutex::new((Vec::new(), usize::MAX, 0)));
     let (after2, server2) = (after.clone(), server.clone());
+    let (prelude2, script2) = (prelude.clone(), script.clone());
+    let t0_cell = Arc::new(std::sync::atomic::AtomicU64::new(t0));
+    let t0_cell2 = t0_cell.clone();
     let r = run_async(async move {
         let mut rb = reqwest::Client::new().get(URL.parse::<reqwest::Url>().unwrap());
         if let Some(t) = timeout_s {
@@ -396,6 +434,19 @@ fn run_http(ctx: &mut Ctx, content: Arc<Vec<u8>>, ranges: Vec<(u64, usize)>, sin
         }
         let mut reader = HttpReader::from_request(rb).retries(retries).retry_delay(Duration::from_secs(delay_s));
         let mut items = Vec::new();
+        if let Some((list, take)) = prelude2 {
+            let list: Vec<ChunkOffset> = list.iter().map(|&(o, s)| ChunkOffset::new(o, s)).collect();
+            {
+                let mut st = reader.read_chunks(list);
+                for _ in 0..take {
+                    let _ = st.next().await;
+                }
+            }
+            let mut srv = server2.lock().unwrap();
+            srv.log.clear();
+            srv.script = script2;
+            t0_cell2.store(simkit::now_ns(), std::sync::atomic::Ordering::SeqCst);
+        }
         if single {
             for &(o, s) in &ranges2 {
                 match reader.read_at(o, s).await {
@@ -450,6 +501,7 @@ fn run_http(ctx: &mut Ctx, content: Arc<Vec<u8>>, ranges: Vec<(u64, usize)>, sin
         log.truncate(log_cut);
     }
     net::uninstall();
+    let t0 = t0_cell.load(std::sync::atomic::Ordering::SeqCst);
     let elapsed = if t_err > 0 { t_err - t0 } else { simkit::now_ns() - t0 };
     // chunk streams must resume; single reads may resume or start over: whichever the observed
     // requests follow is then held to its own consequences
